@@ -832,6 +832,11 @@ ada_really_inline void parse_prepared_path(std::string_view input,
                                            std::string& path) {
   ada_log("parse_prepared_path ", input);
   uint8_t accumulator = checkers::path_signature(input);
+#ifdef ADA_URL_ADA_VERIF
+  if (ada_verif_buggify(103)) {
+    accumulator = 0xF;  // all hints set: most general builder
+  }
+#endif
   // Let us first detect a trivial case.
   // If it is special, we check that we have no dot, no %,  no \ and no
   // character needing percent encoding. Otherwise, we check that we have no %,
@@ -875,6 +880,9 @@ ada_really_inline void parse_prepared_path(std::string_view input,
   }
   if (trivial_path) {
     ada_log("parse_path trivial");
+#ifdef ADA_URL_ADA_VERIF
+    ada_verif_probe(203);
+#endif
     path += '/';
     path += input;
     return;
@@ -889,6 +897,9 @@ ada_really_inline void parse_prepared_path(std::string_view input,
       (type != ada::scheme::type::FILE);
   if (fast_path) {
     ada_log("parse_prepared_path fast");
+#ifdef ADA_URL_ADA_VERIF
+    ada_verif_probe(213);
+#endif
     // Here we don't need to worry about \ or percent encoding.
     // We also do not have a file protocol. We might have dots, however,
     // but dots must as appear as '.', and they cannot be encoded because
